@@ -331,7 +331,7 @@ impl Check for C14 {
     }
     fn cases(&self, tier: Tier) -> u64 {
         match tier {
-            Tier::Quick => 760,
+            Tier::Quick => 1500,
             Tier::Thorough => 5000,
         }
     }
